@@ -138,105 +138,8 @@ func runC16(c *Ctx) {
 	c.check(len(tab.problems) == 0 && tab.lines["glyphlist.txt"] > 4000 && tab.lines["zapfdingbats.txt"] > 150 && tab.lines["aglfn.txt"] > 500, "NAMES-DATA", "agl-aglfn/*.txt", "embedded tables are well-formed (name;codes / code;name;description, upper-case hex scalar values, no duplicates)", token.NoPos,
 		fmt.Sprintf("%d + %d + %d data lines", tab.lines["glyphlist.txt"], tab.lines["zapfdingbats.txt"], tab.lines["aglfn.txt"]), "embedded data: "+joinMax(tab.problems, 5))
 
-	// ---------- parser shape of getFile vs data
-	{
-		fd := c.funcDecl("names", "glyphMap", "getFile")
-		fname := "names.(*glyphMap).getFile"
-		multi := false
-		errChecked := false
-		var parse *ast.CallExpr
-		// the parser may live in getFile itself or in a helper it calls
-		for _, d := range c.declsFrom("names", fd, 2) {
-			d := d
-			ast.Inspect(d.Body, func(n ast.Node) bool {
-				call, ok := n.(*ast.CallExpr)
-				if ok && types.ExprString(call.Fun) == "strconv.ParseInt" && parse == nil {
-					parse = call
-					fd = d
-				}
-				return true
-			})
-		}
-		if parse == nil {
-			c.fail("NAMES-PARSER", fname, "number parser", fd.Pos(), "getFile no longer parses code points with strconv.ParseInt; the rule cannot relate the parser to the data (undecided)")
-		} else {
-			// is the argument the element of a range over strings.Fields(...)?
-			if id, ok := parse.Args[0].(*ast.Ident); ok {
-				obj := info.ObjectOf(id)
-				ast.Inspect(fd.Body, func(n ast.Node) bool {
-					if rs, ok := n.(*ast.RangeStmt); ok {
-						if v, ok := rs.Value.(*ast.Ident); ok && info.ObjectOf(v) == obj {
-							if call, ok := rs.X.(*ast.CallExpr); ok && types.ExprString(call.Fun) == "strings.Fields" {
-								multi = true
-							}
-						}
-					}
-					return true
-				})
-			}
-			// base 16
-			okBase := false
-			if k, ok := constIntOf(info, parse.Args[1]); ok && k == 16 {
-				okBase = true
-			}
-			// error used?
-			ast.Inspect(fd.Body, func(n ast.Node) bool {
-				if as, ok := n.(*ast.AssignStmt); ok && len(as.Rhs) == 1 && as.Rhs[0] == ast.Expr(parse) && len(as.Lhs) == 2 {
-					if id, ok := as.Lhs[1].(*ast.Ident); ok && id.Name != "_" {
-						errChecked = true
-					}
-				}
-				return true
-			})
-			maxCodes := tab.maxCodes["glyphlist.txt"]
-			if tab.maxCodes["zapfdingbats.txt"] > maxCodes {
-				maxCodes = tab.maxCodes["zapfdingbats.txt"]
-			}
-			c.check(okBase && (multi || maxCodes <= 1), "NAMES-PARSER", fname, "the parser can take every entry of the embedded lists (entries with several code points included)", parse.Pos(),
-				fmt.Sprintf("splits the code field: %v; longest entry has %d code points", multi, maxCodes),
-				fmt.Sprintf("the code field is handed whole to one ParseInt (base 16: %v) but the embedded lists contain entries with up to %d space-separated code points: those names map to U+0000", okBase, maxCodes))
-			c.check(errChecked || len(tab.problems) == 0, "NAMES-PARSER", fname, "a parse error cannot pass unnoticed", parse.Pos(), fmt.Sprintf("error checked: %v; data proven parseable: %v", errChecked, len(tab.problems) == 0), "the ParseInt error is discarded and the data does not prove it cannot occur")
-		}
-		// the two swaps
-		txt := nodeString(c, fd.Body)
-		okSwap := strings.Contains(txt, `name == "Tcommaaccent" && code == 0x0162`) && strings.Contains(txt, "code = 0x021A") && strings.Contains(txt, `name == "tcommaaccent" && code == 0x0163`) && strings.Contains(txt, "code = 0x021B")
-		c.rep.Extra["swaps_applied"] = okSwap
-	}
-	// ---------- getEncode: discarded errors vs data; embedded file exists
-	{
-		fd := c.funcDecl("names", "glyphMap", "getEncode")
-		fname := "names.(*glyphMap).getEncode"
-		var opened string
-		for _, d := range c.declsFrom("names", fd, 2) {
-			d := d
-			ast.Inspect(d.Body, func(n ast.Node) bool {
-				if call, ok := n.(*ast.CallExpr); ok && strings.HasSuffix(types.ExprString(call.Fun), ".Open") && len(call.Args) == 1 {
-					if s, ok := constStrOf(info, call.Args[0]); ok && opened == "" {
-						opened = s
-						fd = d
-					}
-				}
-				return true
-			})
-		}
-		_, err := os.Stat(filepath.Join(repoDir, "type1", "names", opened))
-		c.check(opened != "" && err == nil && strings.HasPrefix(opened, "agl-aglfn/") && strings.HasSuffix(opened, ".txt"), "NAMES-PARSER", fname, "the table opened with a discarded error exists in the embedded file set", fd.Pos(), opened, "getEncode opens `"+opened+"`, which is not in the embedded agl-aglfn/*.txt set: the discarded error hides a nil file")
-		// indices used after SplitN(line, ";", 3): ww[0], ww[1] — data has ≥ 2 fields on every line (checked in NAMES-DATA)
-		maxIdx := int64(-1)
-		ast.Inspect(fd.Body, func(n ast.Node) bool {
-			if ix, ok := n.(*ast.IndexExpr); ok {
-				if id, ok := ix.X.(*ast.Ident); ok && id.Name != "line" {
-					if _, isSlice := info.TypeOf(id).Underlying().(*types.Slice); isSlice {
-						if k, ok := constIntOf(info, ix.Index); ok && k > maxIdx {
-							maxIdx = k
-						}
-					}
-				}
-			}
-			return true
-		})
-		c.check(maxIdx <= 2 && len(tab.problems) == 0, "NAMES-PARSER", fname, "every field index used exists on every data line", fd.Pos(), fmt.Sprintf("highest index %d; all lines have 3 fields", maxIdx), "getEncode indexes a field that is missing on some data line")
-	}
+	// ---------- the parsers of the embedded tables against the tables themselves
+	c.namesParserRule(tab)
 
 	// ---------- table cross-checks
 	{
@@ -314,22 +217,8 @@ func runC16(c *Ctx) {
 			}
 			c.check(len(bad) == 0 && n > 100, "NAMES-TABLES", "names.compat", "compatibility expansions are injective and never a single character", lit.Pos(), fmt.Sprintf("%d entries", n), joinMax(bad, 4))
 		}
-		// fallback format
-		fd := c.funcDecl("names", "", "FromUnicode")
-		okFmt := false
-		nFmt := 0
-		for _, d := range c.declsFrom("names", fd, 2) {
-			ast.Inspect(d.Body, func(n ast.Node) bool {
-				if call, ok := n.(*ast.CallExpr); ok && types.ExprString(call.Fun) == "fmt.Sprintf" {
-					nFmt++
-					if s, ok := constStrOf(info, call.Args[0]); ok && s == "u%04X" {
-						okFmt = true
-					}
-				}
-				return true
-			})
-		}
-		c.check(okFmt && nFmt == 1, "NAMES-TABLES", "names.FromUnicode", "fallback name = u + at least four upper-case hexadecimal digits", fd.Pos(), `"u%04X"`, "the fallback glyph name is not produced with u%04X (upper case, zero padded): ToUnicode would not map it back")
+		// fallback format, listed names, expansions
+		c.fromUnicodeRule()
 	}
 
 	c.isValidGrammarSSA()
@@ -781,4 +670,174 @@ func (c *Ctx) declsFrom(pkg string, fd *ast.FuncDecl, depth int) []*ast.FuncDecl
 		frontier = next
 	}
 	return out
+}
+
+// namesParserRule: NAMES-PARSER.  The functions that parse the embedded lists are found by
+// their role (the line loops over a bufio.Scanner reachable from ToUnicode resp. FromUnicode).
+// One iteration of the loop is evaluated (ssaeval, ext_g_afm.go) for every line of the file the
+// function opens — the lines of the embedded files are the cells of the table —, and what the
+// iteration puts into the map has to be what the line says: name → all its code points for the
+// glyph lists, code → name for the AGLFN list.  A parser that hands a field with several code
+// points to one ParseInt, discards an error that does occur, uses a field index that a line
+// does not have, or opens a file that is not embedded, fails this whatever its form.
+func (c *Ctx) namesParserRule(tab *aglTables) {
+	dir := filepath.Join(repoDir, "type1", "names")
+	type parserSpec struct {
+		root   *ssa.Function
+		byName bool // name → codes (glyph lists); otherwise code → name (AGLFN)
+		files  []string
+	}
+	for _, ps := range []parserSpec{
+		{c.fn("names", "ToUnicode"), true, []string{"glyphlist", "zapfdingbats"}},
+		{c.fn("names", "FromUnicode"), false, []string{""}},
+	} {
+		// the function with the line loop
+		var fn *ssa.Function
+		for _, f := range c.afmWriterFuncs(ps.root) {
+			hasScan := false
+			eachInstr(f, func(ins ssa.Instruction) {
+				if call, ok := ins.(ssa.CallInstruction); ok && callName(call) == "(*bufio.Scanner).Scan" {
+					hasScan = true
+				}
+			})
+			if hasScan && fn == nil {
+				fn = f
+			}
+		}
+		rootName := c.fname(ps.root)
+		if fn == nil {
+			c.undecided("NAMES-PARSER", rootName, "table parser", ps.root.Pos(), "no function reachable from "+rootName+" reads lines with a bufio.Scanner: the rule cannot relate the parser to the embedded data")
+			continue
+		}
+		fname := c.fname(fn)
+		for _, file := range ps.files {
+			m := c.newAfmReaderModel(fn)
+			m.emptyState = true
+			m.params = map[int]sv{}
+			for i, p := range fn.Params {
+				if bt, ok := p.Type().Underlying().(*types.Basic); ok && bt.Info()&types.IsString != 0 {
+					m.params[i] = sv{k: svString, s: file}
+				}
+			}
+			var opened []string
+			m.onCall = func(ev *ssaEval, call ssa.CallInstruction, args []sv) (sv, bool) {
+				if call == nil {
+					return sv{}, false
+				}
+				if n := callName(call); strings.HasSuffix(n, ".Open") || strings.HasSuffix(n, ".ReadFile") {
+					for _, a := range args {
+						if a.k == svString {
+							opened = append(opened, a.s)
+						}
+					}
+					return sv{k: svTuple, tup: []sv{symV("file"), {k: svNil}}}, true
+				}
+				return sv{}, false
+			}
+			// which file does it open?
+			first := m.run(nil, "# comment")
+			what := "table " + file
+			if file == "" {
+				what = "table"
+			}
+			if len(opened) != 1 {
+				c.undecided("NAMES-PARSER", fname, what+": file opened", fn.Pos(), fmt.Sprintf("the file the parser opens could not be determined (%v %s)", opened, first.why))
+				continue
+			}
+			path := opened[0]
+			data, err := os.ReadFile(filepath.Join(dir, path))
+			okFile := err == nil && strings.HasPrefix(path, "agl-aglfn/") && strings.HasSuffix(path, ".txt")
+			c.check(okFile, "NAMES-PARSER", fname, "the table opened exists in the embedded file set", fn.Pos(), path, "the parser opens `"+path+"`, which is not in the embedded agl-aglfn/*.txt set: a discarded error hides a nil file")
+			if !okFile {
+				continue
+			}
+			var bad []string
+			var deviations [][2]string
+			nLines, nData := 0, 0
+			for _, line := range strings.Split(strings.ReplaceAll(string(data), "\r\n", "\n"), "\n") {
+				nLines++
+				opened = nil
+				r := m.run(nil, line)
+				var ups []ssaEffect
+				if m.lastEv != nil {
+					for _, ef := range m.lastEv.effects[m.lastBase:] {
+						if ef.what == "mapupdate" {
+							ups = append(ups, ef)
+						}
+					}
+				}
+				isData := len(line) > 0 && line[0] != '#'
+				why := ""
+				switch {
+				case !r.ok:
+					why = r.why
+				case !isData:
+					if len(ups) != 0 {
+						why = "a comment or empty line adds an entry"
+					}
+				case len(ups) != 1:
+					why = fmt.Sprintf("%d entries are added, expected one", len(ups))
+				case ps.byName:
+					nData++
+					parts := strings.SplitN(line, ";", 2)
+					var want []int64
+					if len(parts) == 2 {
+						for _, f := range strings.Fields(parts[1]) {
+							v, _ := strconv.ParseInt(f, 16, 32)
+							want = append(want, v)
+						}
+					}
+					var got []int64
+					el, ok := m.lastEv.elems(ups[0].args[1])
+					if ups[0].args[1].k == svInt {
+						// a table that keeps one code point per name
+						el, ok = []sv{ups[0].args[1]}, true
+					}
+					for _, x := range el {
+						if x.k != svInt {
+							ok = false
+						}
+						got = append(got, x.i)
+					}
+					same := ok && ups[0].args[0].k == svString && ups[0].args[0].s == parts[0] && len(got) == len(want)
+					for i := range want {
+						if same && got[i] != want[i] {
+							same = false
+						}
+					}
+					if !same {
+						why = fmt.Sprintf("the entry becomes %s → %X, the line says %X", ups[0].args[0], got, want)
+						if ok && ups[0].args[0].k == svString && ups[0].args[0].s == parts[0] && len(got) == len(want) {
+							// the entry is read, but to other code points than listed: one obligation
+							// per such entry (a deliberate correction is a reviewed deviation)
+							deviations = append(deviations, [2]string{fmt.Sprintf("%s: entry `%s` is read as %X", filepath.Base(path), line, got), fmt.Sprintf("%s:%d: the list says %s → %X, the parser makes it %X: ToUnicode does not map the name to the listed text", path, nLines, parts[0], want, got)})
+							why = ""
+						}
+					}
+				default:
+					nData++
+					parts := strings.SplitN(line, ";", 3)
+					v, _ := strconv.ParseInt(parts[0], 16, 32)
+					if len(parts) < 2 || ups[0].args[0].k != svInt || ups[0].args[0].i != v || ups[0].args[1].k != svString || ups[0].args[1].s != parts[1] {
+						why = fmt.Sprintf("the entry becomes %s → %s", ups[0].args[0], ups[0].args[1])
+					}
+				}
+				if why != "" {
+					bad = append(bad, fmt.Sprintf("%s:%d `%s`: %s", path, nLines, firstN(line, 40), why))
+					if len(bad) > 20 {
+						break
+					}
+				}
+			}
+			for i, d := range deviations {
+				if i >= 8 {
+					bad = append(bad, fmt.Sprintf("… and %d more entries read to other code points than listed", len(deviations)-i))
+					break
+				}
+				// keyed by the exported entry point, not by the (unexported, renameable) parser
+				c.fail("NAMES-PARSER", rootName, d[0], fn.Pos(), d[1])
+			}
+			c.check(len(bad) == 0 && nData > 100, "NAMES-PARSER", fname, "every line of "+path+" is read as it stands (all code points of an entry, no error that passes unnoticed, no missing field)", fn.Pos(), fmt.Sprintf("%d lines, %d entries evaluated", nLines, nData), fmt.Sprintf("the parser does not read the embedded list as it stands (%d of the first lines differ): %s", len(bad), joinMax(bad, 3)))
+		}
+	}
 }
